@@ -144,6 +144,44 @@ def h_kautocor(ctx, cfg):
   ctx.prove(ctx.eq(filt.error, energy), "kautocor:error-is-energy-of-a*x (zero-extended)")
 
 
+def h_successive_calls(ctx, cfg):
+  """Calls do not depend on earlier calls: the same buffer object refilled in place between two analyses, an order
+  sweep over one lag list, and results of earlier calls that are kept while later calls are made."""
+  from audiolazy import lpc
+  from audiolazy.lazy_lpc import levinson_durbin
+  kind = cfg["kind"]
+  if kind == "refilled-buffer":
+    N, p = cfg["N"], cfg["p"]
+    x1 = ctx.reals("x", N); x2 = ctx.reals("y", N)
+    buf = list(x1)
+    try:
+      f1 = lpc.kautocor(buf, p)
+      buf[:] = list(x2)                        # the caller's frame buffer, refilled in place
+      f2 = lpc.kautocor(buf, p)
+    except ZeroDivisionError:
+      ctx.exclude("recursion divides by zero")
+    for tag, filt, x in (("first frame", f1, x1), ("second frame (same list object, new contents)", f2, x2)):
+      r = []
+      for tau in range(p + 1):
+        acc = 0
+        for k in range(N - tau): acc = acc + x[k] * x[k + tau]
+        r.append(acc)
+      _check_yule_walker(ctx, filt, r, p, "kautocor[%s]" % tag)
+  else:                                        # kept results, orders 0..P over their own lag lists
+    P = cfg["p"]
+    ra = ctx.reals("r", P + 1); rb = ctx.reals("s", P + 1)
+    kept = []
+    try:
+      for r in (ra, rb):
+        for order in range(P + 1):
+          kept.append((r, order, levinson_durbin(list(r), order)))
+    except ZeroDivisionError:
+      ctx.exclude("recursion divides by zero")
+    for r, order, filt in kept:                # checked only now: a later call must not have touched an earlier result
+      _check_yule_walker(ctx, filt, r, order, "levinson[kept order %d]" % order)
+    ctx.prove(len({id(f) for _, _, f in kept}) == len(kept), "every-call-returns-its-own-filter")
+
+
 def h_kcovar(ctx, cfg):
   from audiolazy import lpc
   N, p = cfg["N"], cfg["p"]
@@ -175,10 +213,17 @@ def h_kcovar(ctx, cfg):
   ctx.prove(ctx.eq(filt.error, energy), "kcovar:error-is-residual-energy-over-n>=p")
 
 
+def _successive(big):
+  return [("h_successive_calls", {"kind": "refilled-buffer", "N": 3, "p": 1}),
+          ("h_successive_calls", {"kind": "refilled-buffer", "N": 3 if not big else 4, "p": 2}, {"optional": False, "task_s": 600}),
+          ("h_successive_calls", {"kind": "kept", "p": 1}),
+          ("h_successive_calls", {"kind": "kept", "p": 0})]
+
+
 def tasks(tier, seed):
   import random
   big = tier == "thorough"
-  T = []
+  T = _successive(big)
   for n in (1, 2, 3, 4):
     T.append(("h_levinson", {"n": n}))
   # explicit order below / above len(r)-1 (zero extension)
